@@ -15,7 +15,7 @@ Local Open Scope string_scope.
 Local Open Scope list_scope.
 
 Definition wf_ts_task (t : task) : Prop :=
-  t_method t = Timestamp /\ t_sources t <> [] /\ t_generates t = [].
+  t_method t = Timestamp /\ t_sources t <> [] /\ t_generates t = [] /\ t_dep t = None.
 
 Definition wf_ts_proj (p : project) : Prop :=
   (forall tid t, nth_error p tid = Some t -> wf_ts_task t) /\
@@ -74,7 +74,7 @@ Section CurrentTs.
   Lemma uptodate_ts : forall now s t, wf_ts_task t ->
     uptodate matchb H Hx v true now s t = (upT s t, s).
   Proof.
-    intros now s t [Hm [Hsrc Hg]]. unfold Model.uptodate.
+    intros now s t [Hm [Hsrc [Hg _]]]. unfold Model.uptodate.
     assert (Hnn : negb (is_nil (t_sources t)) = true) by (destruct (t_sources t); [congruence|reflexivity]).
     rewrite Hnn. unfold check_sources. rewrite Hm, Hnex. unfold check_timestamp, upT, recm, no_newer, srcs, gens_exist.
     rewrite Hg. cbn [negb forallb max_mtime fold_right is_nil]. rewrite globs_nil. cbn [max_mtime fold_right is_nil].
@@ -121,9 +121,9 @@ Section CurrentTs.
 
   Lemma run_task_tsum : forall now s m tid t o s' r,
     wf_ts_task t -> (m = Run \/ m = Force \/ m = Dry) ->
-    run_task matchb H Hx v now s m tid t o = (s', r) -> tsum s now m t s' r.
+    run_task_core matchb H Hx v now s m tid t o = (s', r) -> tsum s now m t s' r.
   Proof.
-    intros now s m tid t o s' r Hwt Hmode E. unfold run_task in E.
+    intros now s m tid t o s' r Hwt Hmode E. unfold run_task_core in E.
     set (dry := match m with Dry => true | _ => false end) in *.
     set (force := match m with Force => true | _ => false end) in *.
     rewrite Hsafe, orb_true_r in E. cbn [andb] in E.
@@ -402,11 +402,12 @@ Section CurrentTs.
       destruct (nth_error p tid) as [t|] eqn:Hn.
       2:{ destruct m; inversion Es; subst; try (now apply Hstay).
           apply Hstay; auto. now apply list_json_quiet. }
-      pose proof Hwf as [Hwt Hkeys]. pose proof (Hwt _ _ Hn) as Hwt'. pose proof Hwt' as [Hm [Hsrc Hgen]].
+      pose proof Hwf as [Hwt Hkeys]. pose proof (Hwt _ _ Hn) as Hwt'. pose proof Hwt' as [Hm [Hsrc [Hgen Hdep]]].
+      cbn [fst] in Ec. rewrite (deps_fs_none _ _ _ _ Hdep) in Ec.
       assert (Hge : gens_exist matchb (fs s) t = true) by (unfold gens_exist; now rewrite Hgen).
       assert (Hrun : forall mm, (mm = Run \/ mm = Force \/ mm = Dry) -> m = mm ->
                 run_task matchb H Hx v t0 s mm tid t oc = (s', x) -> ok = true /\ InvT p (t0 + 2) s' g').
-      { intros mm Hmm -> Er.
+      { intros mm Hmm -> Er. unfold run_task in Er. rewrite (deps_fs_none _ _ _ _ Hdep), with_fs_id in Er.
         pose proof (run_task_tsum _ _ _ _ _ _ _ _ Hwt' Hmm Er) as Sm.
         destruct Sm as [Hnf Hup -> ->|Hd Hup Ht Hf Hrd|Hnd Hup Hr Ht Hf|Hnd Hup -> Ht Hf].
         - (* skipped: the marker's attempt was at this fingerprint *)
@@ -526,7 +527,8 @@ Section CurrentTs.
       destruct (nth_error p tid) as [t|] eqn:Hn.
       2:{ destruct m; inversion Es; subst; try (now apply Hstay).
           apply Hstay; auto. now apply list_json_quiet. }
-      pose proof Hwf as [Hwt Hkeys]. pose proof (Hwt _ _ Hn) as Hwt'. pose proof Hwt' as [Hm [Hsrc Hgen]].
+      pose proof Hwf as [Hwt Hkeys]. pose proof (Hwt _ _ Hn) as Hwt'. pose proof Hwt' as [Hm [Hsrc [Hgen Hdep]]].
+      cbn [fst] in Ec. rewrite (deps_fs_none _ _ _ _ Hdep) in Ec.
       assert (Hge : gens_exist matchb (fs s) t = true) by (unfold gens_exist; now rewrite Hgen).
       destruct Hinv as [HK Hinv]. pose proof (Hinv _ _ Hn) as Hi.
       (* the monitor's expectation is the model's decision *)
@@ -569,7 +571,7 @@ Section CurrentTs.
             rewrite Hf. eapply J_update with (tau := N.succ t0); eauto; [lia|]. intros q _. apply outs_lookup. }
       assert (Hrun : forall mm, (mm = Run \/ mm = Force \/ mm = Dry) -> m = mm ->
                 run_task matchb H Hx v t0 s mm tid t oc = (s', x) -> ok = true /\ InvT5 p (t0 + 2) s' g').
-      { intros mm Hmm -> Er.
+      { intros mm Hmm -> Er. unfold run_task in Er. rewrite (deps_fs_none _ _ _ _ Hdep), with_fs_id in Er.
         pose proof (run_task_tsum _ _ _ _ _ _ _ _ Hwt' Hmm Er) as Sm.
         destruct Sm as [Hnf Hup -> ->|Hd Hup Ht Hf Hrd|Hnd Hup Hr Ht Hf|Hnd Hup -> Ht Hf].
         - assert (Hat : is_attempt mm RSkipped = false) by (destruct mm; reflexivity).
